@@ -16,7 +16,7 @@ Definition att_rel (a : option cres) (b : option bool) : Prop :=
   match a, b with
   | None, None => True
   | Some ROk, Some true => True
-  | Some (RFail _), Some false => True
+  | Some (RFail x), Some false => x = 1
   | _, _ => False
   end.
 
@@ -86,6 +86,8 @@ Record R (s : st) (k : chk) : Prop := {
              find_addr (r_ip r) (r_port r) (addrs (t k)) = Some (r_k r) /\
              exists cn, find_conn (r_k r) (conns s) = Some cn /\ k_oid cn = r_oid r /\
                         (k_stage cn = KLocal \/ k_stage cn = KWaitAtt \/ k_stage cn = KDone);
+  R_fired_err : forall oid c, nth_error (objs s) oid = Some c ->
+                  (c_fired c = Some FClosedErr -> c_st c = CClosed) /\ (c_fired c = Some FFailedErr -> c_st c = CFailed);
   R_fired_st : forall oid c, nth_error (objs s) oid = Some c -> c_fired c = Some FOk ->
                  c_st c = CBuilt \/ c_terminal (c_st c) = true;
   R_started : forall cn, In cn (conns s) -> k_stage cn = KStarted ->
@@ -117,7 +119,10 @@ Ltac same_fields H :=
         | exact (R_chan _ _ H) | exact (R_cinv _ _ H) | exact (R_ids _ _ H) | exact (R_oos _ _ H)
         | exact (R_built_fired _ _ H) | exact (R_alive_fired _ _ H) | exact (R_wait _ _ H)
         | exact (R_ca _ _ H) | exact (R_via _ _ H) | exact (R_kids _ _ H) | exact (R_conn_oid _ _ H)
-        | exact (R_nodup _ _ H) | exact (R_regs _ _ H) | exact (R_fired_st _ _ H) | exact (R_started _ _ H) | exact (R_regs_fired _ _ H) | exact (R_conts _ _ H) | exact (R_live1 _ _ H) | idtac ].
+        | exact (R_nodup _ _ H) | exact (R_regs _ _ H) | exact (R_fired_err _ _ H) | exact (R_fired_st _ _ H) | exact (R_started _ _ H) | exact (R_regs_fired _ _ H) | exact (R_conts _ _ H) | exact (R_live1 _ _ H) | idtac ].
+
+Lemma k_eta0 (k : chk) : {| t := t k; regs := regs k; cns := cns k; expect := expect k |} = k.
+Proof. destruct k; reflexivity. Qed.
 
 (* ------------------------------------------------------------------ projections of event lists *)
 Lemma askeds_app a b : askeds (a ++ b) = askeds a ++ askeds b.
@@ -166,14 +171,37 @@ Proof.
   now rewrite Nat.eqb_refl, N.eqb_refl, IH.
 Qed.
 
+(* ------------------------------------------------------------------ marking the connections that have not started when Tor refuses a command *)
+Lemma cn_r4_keeps c : n_k (cn_r4 c) = n_k c /\ n_oid (cn_r4 c) = n_oid c /\ n_started (cn_r4 c) = n_started c /\
+  n_local (cn_r4 c) = n_local c /\ n_socks (cn_r4 c) = n_socks c /\ n_att (cn_r4 c) = n_att c /\ n_done (cn_r4 c) = n_done c /\
+  n_refused (cn_r4 c) = n_refused c.
+Proof. unfold cn_r4. destruct (negb (n_started c) && negb (n_done c)); cbn; repeat split. Qed.
+
+Lemma stage_flags_r4 c n : stage_flags c n -> stage_flags c (cn_r4 n).
+Proof.
+  destruct (cn_r4_keeps n) as (A & B & C & D & E & F & G & _).
+  unfold stage_flags, fresh_cn. rewrite A, B, C, D, E, F, G. tauto.
+Qed.
+
+Lemma R_r4 s k : R s k -> R s {| t := t k; regs := regs k; cns := map cn_r4 (cns k); expect := expect k |}.
+Proof.
+  intros H. constructor; same_fields H. cbn [cns].
+  pose proof (R_conns _ _ H) as F. induction F as [|c n cs ns Hcn _ IH]; cbn [map]; constructor; [apply stage_flags_r4; exact Hcn | exact IH].
+Qed.
+
+Definition k_reply (k : chk) (ok : bool) : chk :=
+  {| t := t k; regs := regs k; cns := if ok then cns k else map cn_r4 (cns k); expect := expect k |}.
+Lemma R_k_reply s k ok : R s k -> R s (k_reply k ok).
+Proof. intros H. destruct ok; [unfold k_reply; rewrite k_eta0; exact H | apply R_r4; exact H]. Qed.
+
 (* ------------------------------------------------------------------ OReply when nothing is in flight *)
 Lemma reply_idle s k ok : R s k -> busy s = None ->
   exists k', chk_op k (OReply ok) (snd (step s (OReply ok))) = Some k' /\ R (fst (step s (OReply ok))) k'.
 Proof.
   intros H B. cbn [step]. unfold op_reply. rewrite B. cbn [fst snd].
-  eexists. split.
+  exists (k_reply k ok). split.
   - unfold chk_op. cbn [legal negb tor_step]. apply finish_intro; try reflexivity. destruct ok; reflexivity.
-  - constructor; same_fields H.
+  - apply R_k_reply. exact H.
 Qed.
 
 (* ------------------------------------------------------------------ connections on both sides *)
@@ -529,7 +557,7 @@ Proof.
 Qed.
 
 Lemma conn_event_done tt l kk n r : find_cn kk l = Some n -> n_done n = false ->
-  (match r with ROk => both_ok n | RFail _ => negb (both_ok n) end) = true ->
+  (match r with ROk => both_ok n | RFail kd => negb (both_ok n) && fail_ok tt n kd end) = true ->
   conn_events tt l [EConnDone kk r] = Some (upd_cn (cn_done n) l).
 Proof. intros F D Fi. cbn [conn_events conn_event]. now rewrite F, D, Fi. Qed.
 
@@ -581,10 +609,11 @@ Qed.
 (* the coroutine ends with a failure before anything was attached *)
 Lemma conn_fail_R s k kk cn x : R s k -> find_conn kk (conns s) = Some cn -> k_stage cn <> KDone ->
   ~ In kk (kconns s) -> not_waiting s kk ->
+  (forall n, find_cn kk (cns k) = Some n -> fail_ok (t k) n x = true) ->
   exists cs', conn_events (t k) (cns k) (snd (conn_finish s kk (RFail x))) = Some cs' /\
               R (fst (conn_finish s kk (RFail x))) {| t := t k; regs := regs k; cns := cs'; expect := expect k |}.
 Proof.
-  intros H F Hst Hnk Hnw. destruct (find_cn_of _ _ _ _ H F) as (n & Fn & Hk & Ho & SF).
+  intros H F Hst Hnk Hnw Hj. destruct (find_cn_of _ _ _ _ H F) as (n & Fn & Hk & Ho & SF).
   pose proof (find_conn_id _ _ _ F) as [Hcid _].
   assert (Hd : n_done n = false /\ both_ok n = false).
   { unfold both_ok. destruct (k_stage cn); try congruence.
@@ -595,7 +624,7 @@ Proof.
     - destruct SF as (_ & _ & _ & -> & -> & _). auto. }
   destruct Hd as [Hd Hb].
   exists (upd_cn (cn_done n) (cns k)). split.
-  - cbn [conn_finish snd]. apply conn_event_done; auto. now rewrite Hb.
+  - cbn [conn_finish snd]. apply conn_event_done; auto. now rewrite Hb, (Hj n Fn).
   - cbn [conn_finish fst]. rewrite (set_stage_eq _ _ _ _ F).
     eapply R_put_conn; eauto.
     + unfold stage_flags. cbn. repeat split; auto; congruence.
@@ -635,6 +664,7 @@ Proof.
     split; [congruence|]. intros k0 Hin. apply in_app_or in Hin as [Hin|[<-|[]]]; [exact (Hw k0 Hin)|].
     exists cn. auto.
   - intros x Hin. rewrite set_nth_length. exact (R_conn_oid _ _ H x Hin).
+  - intros oid' x X. apply Hget in X as [[-> ->]|[_ X]]; [split; discriminate | exact (R_fired_err _ _ H _ _ X)].
   - intros oid' x X Fx. apply Hget in X as [[-> ->]|[_ X]]; [discriminate Fx | exact (R_fired_st _ _ H _ _ X Fx)].
   - intros x Hin St. destruct (R_started _ _ H x Hin St) as (c0 & E0 & F0).
     destruct (Nat.eq_dec (k_oid x) oid) as [Eq|Hne]; [rewrite Eq in E0; congruence|].
@@ -672,6 +702,15 @@ Proof. intros H. rewrite (ids_corr _ _ (R_conns _ _ H)). exact (R_nodup _ _ H). 
 Lemma find_cn_key kk l n : find_cn kk l = Some n -> n_k n = kk.
 Proof. unfold find_cn. intros H. apply find_some in H as [_ E]. now apply Nat.eqb_eq in E. Qed.
 
+(* a connect() may fail with CircuitBuildClosedError / CircuitBuildFailedError: its circuit ended before it was built *)
+Lemma fail_err_ok s k oid c f n : R s k -> nth_error (objs s) oid = Some c -> c_fired c = Some f -> f <> FOk ->
+  n_oid n = oid -> fail_ok (t k) n (fres_kind f) = true.
+Proof.
+  intros H E Fc Hf Ho. destruct (R_fired_err _ _ H _ _ E) as [Hc Hfl].
+  unfold fail_ok. rewrite Ho, (R_incs _ _ H), nth_error_map, E. cbn [option_map inc_of i_st i_built]. rewrite Fc.
+  destruct f; [congruence | rewrite (Hc Fc) | rewrite (Hfl Fc)]; reflexivity.
+Qed.
+
 (* yield self._circuit.when_built(), for a connection that has its attacher *)
 Lemma conn_when_built_R s k kk cn : R s k -> find_conn kk (conns s) = Some cn -> k_stage cn = KSetconf ->
   ~ In kk (kconns s) ->
@@ -688,8 +727,10 @@ Proof.
   - apply cstatus_eqb_eq in B. eapply conn_start_R; eauto; [left; exact Hst | exact (R_built_fired _ _ H _ _ E B)].
   - destruct (c_fired c) as [[| |]|] eqn:Fi.
     + eapply conn_start_R; eauto. left; exact Hst.
-    + eapply conn_fail_R; eauto. congruence.
-    + eapply conn_fail_R; eauto. congruence.
+    + eapply conn_fail_R; eauto; [congruence|]. intros n Fn. destruct (find_cn_of _ _ _ _ H F) as (n' & Fn' & _ & Ho' & _).
+      rewrite Fn in Fn'. injection Fn' as <-. eapply (fail_err_ok s k _ c FClosedErr n H E Fi); [discriminate | exact Ho'].
+    + eapply conn_fail_R; eauto; [congruence|]. intros n Fn. destruct (find_cn_of _ _ _ _ H F) as (n' & Fn' & _ & Ho' & _).
+      rewrite Fn in Fn'. injection Fn' as <-. eapply (fail_err_ok s k _ c FFailedErr n H E Fi); [discriminate | exact Ho'].
     + exists (cns k). split; [reflexivity|]. cbn [fst].
       rewrite set_stage_with_objs, (set_stage_eq _ _ _ _ F).
       destruct (find_cn_of _ _ _ _ H F) as (n & Fn & Hk & Ho & SF). rewrite Hst in SF.
@@ -819,14 +860,21 @@ Proof. unfold pop_ev. destruct (queue s) as [|[l c] q]; repeat split. Qed.
 Lemma k_eta (k : chk) : {| t := t k; regs := regs k; cns := cns k; expect := expect k |} = k.
 Proof. destruct k; reflexivity. Qed.
 
-Lemma step_reply s k ok : R s k ->
-  exists k', chk_op k (OReply ok) (snd (step s (OReply ok))) = Some k' /\ R (fst (step s (OReply ok))) k'.
+Lemma find_cn_r4 kk l : find_cn kk (map cn_r4 l) = option_map cn_r4 (find_cn kk l).
 Proof.
-  intros H. destruct (busy s) as [c|] eqn:B; [|apply reply_idle; assumption].
-  cbn [step]. rewrite (op_reply_eq s c ok B).
+  unfold find_cn. induction l as [|x l IH]; cbn [map find]; [reflexivity|].
+  rewrite (proj1 (cn_r4_keeps x)). destruct (Nat.eqb (n_k x) kk); [reflexivity | exact IH].
+Qed.
+
+Lemma step_reply_gen s k ok c : R s k -> busy s = Some c ->
+  (ok = false -> forall kk n, find_cn kk (cns k) = Some n -> n_started n = false -> n_done n = false -> n_r4 n = true) ->
+  exists k', finish (t k) (regs k) (cns k) (expect k) (snd (op_reply s ok)) []
+                    (fun n => if ok then Nat.eqb n 0 else Nat.leb n 1) none_raised [] = Some k'
+             /\ R (fst (op_reply s ok)) k'.
+Proof.
+  intros H B Hr4. rewrite (op_reply_eq s c ok B).
   destruct (R_popped s k c H B) as (Hp & Hpre & Hkk).
   destruct (pop_ev_events s) as (PA & PR & PRa & PD & PC).
-  unfold chk_op. cbn [legal negb tor_step].
   set (kp := {| t := t k; regs := regs k; cns := cns k; expect := map parse_cmd (qlines (popped s)) |}) in *.
   (* generic closing step, given the events of the continuation *)
   assert (Close : forall r cs', conn_only (snd r) -> conn_events (t k) (cns k) (snd r) = Some cs' ->
@@ -859,8 +907,24 @@ Proof.
     + destruct (conn_when_built_R (popped s) kp kk cn Hp F Hst Hnin) as (cs' & CE & HR).
       exact (Close (conn_when_built (popped s) kk (k_oid cn)) cs' (conn_when_built_only _ _ _) CE HR).
     + assert (Hnw : not_waiting (popped s) kk) by (eapply not_waiting_of_stage; eauto; congruence).
-      destruct (conn_fail_R (popped s) kp kk cn 4 Hp F ltac:(congruence) Hnin Hnw) as (cs' & CE & HR).
+      assert (Hj : forall n, find_cn kk (cns kp) = Some n -> fail_ok (t kp) n 4 = true).
+      { intros n Fn. destruct (find_cn_of _ _ _ _ Hp F) as (n' & Fn' & _ & _ & SF). rewrite Fn in Fn'. injection Fn' as <-.
+        rewrite Hst in SF. destruct SF as (Hs & (_ & _ & _ & Hd) & _).
+        unfold fail_ok. cbn [N.eqb Pos.eqb]. rewrite (Hr4 eq_refl kk n Fn Hs Hd), Hs. reflexivity. }
+      destruct (conn_fail_R (popped s) kp kk cn 4 Hp F ltac:(congruence) Hnin Hnw Hj) as (cs' & CE & HR).
       exact (Close (conn_finish (popped s) kk (RFail 4)) cs' (conn_finish_only _ _ _) CE HR).
+Qed.
+
+Lemma step_reply s k ok : R s k ->
+  exists k', chk_op k (OReply ok) (snd (step s (OReply ok))) = Some k' /\ R (fst (step s (OReply ok))) k'.
+Proof.
+  intros H. destruct (busy s) as [c|] eqn:B; [|apply reply_idle; assumption].
+  cbn [step]. unfold chk_op. cbn [legal negb tor_step].
+  apply (step_reply_gen s (k_reply k ok) ok c (R_k_reply s k ok H) B).
+  intros -> kk n Fn Hs Hd. cbn [k_reply cns] in Fn. rewrite find_cn_r4 in Fn.
+  destruct (find_cn kk (cns k)) as [n0|]; [|discriminate]. cbn [option_map] in Fn. injection Fn as <-.
+  destruct (cn_r4_keeps n0) as (_ & _ & C & _ & _ & _ & G & _). rewrite C in Hs. rewrite G in Hd.
+  unfold cn_r4. rewrite Hs, Hd. reflexivity.
 Qed.
 
 (* ------------------------------------------------------------------ the final flush *)
@@ -1070,6 +1134,9 @@ Proof.
     + split; [constructor|]. split; [reflexivity | intros ? []].
     + split; [exact ND|]. split; [exact Hf | exact Hw].
   - intros x Hin. rewrite set_nth_length. exact (R_conn_oid _ _ H x Hin).
+  - intros oid' x X. apply Hget in X as [[-> ->]|[_ X]]; [|exact (R_fired_err _ _ H _ _ X)].
+    unfold circ_obj, fires. cbn [c_st c_fired].
+    destruct AF as [Fc | Fc]; rewrite Fc; destruct stt; cbn [fire_res]; split; intros X; try discriminate X; reflexivity.
   - intros oid' x X Fx. apply Hget in X as [[-> ->]|[_ X]]; [|exact (R_fired_st _ _ H _ _ X Fx)].
     unfold circ_obj, fires in *. cbn [c_st c_fired] in *.
     destruct (c_fired c) as [f|] eqn:Fc.
@@ -1107,11 +1174,12 @@ Lemma run_waiters_R f oid : forall ks s k,
   (forall kk, In kk ks -> exists cn, find_conn kk (conns s) = Some cn /\ k_stage cn = KWaitBuilt /\ k_oid cn = oid) ->
   (forall kk, In kk ks -> not_waiting s kk) ->
   (f = FOk -> exists c, nth_error (objs s) oid = Some c /\ c_fired c = Some FOk) ->
+  (ks <> [] -> f <> FOk -> forall n, n_oid n = oid -> fail_ok (t k) n (fres_kind f) = true) ->
   exists cs', conn_events (t k) (cns k) (snd (run_waiters s ks f)) = Some cs' /\
               conn_only (snd (run_waiters s ks f)) /\
               R (fst (run_waiters s ks f)) {| t := t k; regs := regs k; cns := cs'; expect := expect k |}.
 Proof.
-  induction ks as [|kk ks IH]; intros s k H ND Hw Hnw Hf; cbn [run_waiters].
+  induction ks as [|kk ks IH]; intros s k H ND Hw Hnw Hf Hj; cbn [run_waiters].
   - exists (cns k). split; [reflexivity|]. split; [apply conn_only_nil|]. cbn [fst]. now rewrite k_eta.
   - inversion ND as [|? ? Hnin ND']; subst.
     destruct (Hw kk (or_introl eq_refl)) as (cn & F & Hst & Ho).
@@ -1130,9 +1198,15 @@ Proof.
       - destruct (Hf eq_refl) as (c & E & Fi). rewrite <- Ho in E.
         destruct (conn_start_R s k kk cn c H F (or_intror Hst) Hnk (Hnw kk (or_introl eq_refl)) E Fi) as (cs1 & CE & HR).
         exists cs1. split; [exact CE|]. split; [apply conn_start_only|]. split; [exact HR | apply Common].
-      - destruct (conn_fail_R s k kk cn (fres_kind FClosedErr) H F ltac:(congruence) Hnk (Hnw kk (or_introl eq_refl))) as (cs1 & CE & HR).
+      - assert (Hjn : forall n, find_cn kk (cns k) = Some n -> fail_ok (t k) n (fres_kind FClosedErr) = true).
+        { intros n Fn. destruct (find_cn_of _ _ _ _ H F) as (n' & Fn' & _ & Ho' & _). rewrite Fn in Fn'. injection Fn' as <-.
+          apply Hj; [discriminate | discriminate | congruence]. }
+        destruct (conn_fail_R s k kk cn (fres_kind FClosedErr) H F ltac:(congruence) Hnk (Hnw kk (or_introl eq_refl)) Hjn) as (cs1 & CE & HR).
         exists cs1. split; [exact CE|]. split; [apply conn_finish_only|]. split; [exact HR | apply Common].
-      - destruct (conn_fail_R s k kk cn (fres_kind FFailedErr) H F ltac:(congruence) Hnk (Hnw kk (or_introl eq_refl))) as (cs1 & CE & HR).
+      - assert (Hjn : forall n, find_cn kk (cns k) = Some n -> fail_ok (t k) n (fres_kind FFailedErr) = true).
+        { intros n Fn. destruct (find_cn_of _ _ _ _ H F) as (n' & Fn' & _ & Ho' & _). rewrite Fn in Fn'. injection Fn' as <-.
+          apply Hj; [discriminate | discriminate | congruence]. }
+        destruct (conn_fail_R s k kk cn (fres_kind FFailedErr) H F ltac:(congruence) Hnk (Hnw kk (or_introl eq_refl)) Hjn) as (cs1 & CE & HR).
         exists cs1. split; [exact CE|]. split; [apply conn_finish_only|]. split; [exact HR | apply Common]. }
     destruct Step as (cs1 & CE1 & CO1 & R1 & Hobjs & Hkc & Hfind).
     destruct (IH (fst r1) _ R1 ND') as (cs2 & CE2 & CO2 & R2).
@@ -1140,6 +1214,7 @@ Proof.
       exists cn0. rewrite Hfind; [auto | intros ->; contradiction].
     + intros k0 Hin oid' c' E'. rewrite Hobjs in E'. exact (Hnw k0 (or_intror Hin) oid' c' E').
     + intros Ef. rewrite Hobjs. exact (Hf Ef).
+    + cbn [t]. intros _ Hne n Hn. apply Hj; [discriminate | exact Hne | exact Hn].
     + cbn [t regs cns expect] in *. unfold then_. destruct r1 as [s1 e1]. cbn [fst snd] in *.
       destruct (run_waiters s1 ks f) as [s2 e2]. cbn [fst snd] in *.
       exists cs2. split; [rewrite conn_events_app, CE1; exact CE2|]. split; [apply conn_only_app; assumption | exact R2].
@@ -1201,6 +1276,7 @@ Proof.
   - intros oid' x X. apply nth_error_snoc_cases in X as [X|[-> ->]]; [exact (R_wait _ _ H _ _ X)|].
     cbn [new_obj c_wait c_fired]. split; [constructor|]. split; [reflexivity | intros ? []].
   - intros x Hin. rewrite app_length. pose proof (R_conn_oid _ _ H x Hin). lia.
+  - intros oid' x X. apply nth_error_snoc_cases in X as [X|[_ ->]]; [exact (R_fired_err _ _ H _ _ X) | split; discriminate].
   - intros oid' x X Fx. apply nth_error_snoc_cases in X as [X|[_ ->]]; [exact (R_fired_st _ _ H _ _ X Fx) | discriminate Fx].
   - intros x Hin St. destruct (R_started _ _ H x Hin St) as (c0 & E0 & F0). exists c0. split; [|exact F0].
     rewrite nth_error_app1; [exact E0 | apply nth_error_Some; congruence].
@@ -1235,6 +1311,11 @@ Proof.
     + unfold circ_state. cbn [objs with_objs with_circs]. apply nth_error_set_nth_eq. exact Hlen.
     + unfold circ_obj, fires. cbn [c_fired]. destruct stt; try discriminate Ef.
       destruct AF as [-> | ->]; reflexivity.
+  - intros Hws Hne n Hn. subst ws. destruct (fires c stt) eqn:Fi; [|congruence].
+    assert (E' : nth_error (objs (circ_state s1 cid oid c stt)) oid = Some (circ_obj c stt)).
+    { unfold circ_state. cbn [objs with_objs with_circs]. apply nth_error_set_nth_eq. exact Hlen. }
+    assert (Fc' : c_fired (circ_obj c stt) = Some (fire_res stt)) by (unfold circ_obj; cbn [c_fired]; now rewrite Fi).
+    exact (fail_err_ok _ _ oid _ _ n H1 E' Fc' Hne Hn).
   - cbn [t regs cns expect] in *. eexists. split; [|exact HR].
     apply finish_intro; [now rewrite W | exact A | now rewrite Rp | now rewrite Ra | exact CE | reflexivity].
 Qed.
@@ -1304,16 +1385,17 @@ Proof.
 Qed.
 
 Definition new_conn (kk oid : nat) : conn := {| k_id := kk; k_oid := oid; k_stage := KSetconf; k_att := None |}.
-Definition new_cn (kk oid : nat) : cn :=
-  {| n_k := kk; n_oid := oid; n_started := false; n_local := false; n_socks := None; n_att := None; n_done := false |}.
+Definition new_cn (kk oid : nat) (rf : bool) : cn :=
+  {| n_k := kk; n_oid := oid; n_started := false; n_local := false; n_socks := None; n_att := None; n_done := false;
+     n_refused := rf; n_r4 := false |}.
 Definition tor_kid (tt : tor) (kk oid : nat) : tor :=
   {| incs := incs tt; alive := alive tt; sids := sids tt; inst := inst tt; pas := pas tt; subs := subs tt;
      kids := kids tt ++ [(kk, oid)]; addrs := addrs tt; refused := refused tt; via := via tt |}.
 
-Lemma R_new_conn s k kk oid : R s k ->
+Lemma R_new_conn s k kk oid rf : R s k ->
   existsb (fun p => Nat.eqb (fst p) kk) (kids (t k)) = false -> (oid < List.length (objs s))%nat ->
   R (with_conns s (conns s ++ [new_conn kk oid]))
-    {| t := tor_kid (t k) kk oid; regs := regs k; cns := cns k ++ [new_cn kk oid]; expect := expect k |}
+    {| t := tor_kid (t k) kk oid; regs := regs k; cns := cns k ++ [new_cn kk oid rf]; expect := expect k |}
   /\ find_conn kk (conns s ++ [new_conn kk oid]) = Some (new_conn kk oid)
   /\ ~ In kk (kconns s).
 Proof.
@@ -1346,13 +1428,18 @@ Proof.
   apply negb_true_iff in Lk. apply negb_true_iff in Lref. apply Nat.ltb_lt in Lo.
   assert (Hlen : List.length (incs (t k)) = List.length (objs s)) by (rewrite (R_incs _ _ H); apply map_length).
   rewrite Hlen in Lo.
-  destruct (R_new_conn s k kk oid H Lk Lo) as (H1 & F1 & Hkc).
+  set (rf := match conn_outcome (t k) with ConnRefused => true | _ => false end).
+  destruct (R_new_conn s k kk oid rf H Lk Lo) as (H1 & F1 & Hkc).
   destruct (find_conn_none_kids _ _ _ H Lk) as [Fn _].
+  assert (Fcn : find_cn kk (cns k ++ [new_cn kk oid rf]) = Some (new_cn kk oid rf)).
+  { pose proof (find_cn_none _ _ _ H Fn) as Fnn. unfold find_cn in *.
+    induction (cns k) as [|x l IH]; cbn [app find] in *; [cbn [n_k new_cn]; now rewrite Nat.eqb_refl|].
+    destruct (Nat.eqb (n_k x) kk); [discriminate | apply IH; exact Fnn]. }
   unfold op_connect. rewrite Fn. replace (negb (oid <? List.length (objs s))%nat) with false by (symmetry; apply negb_false_iff, Nat.ltb_lt; exact Lo).
   change {| k_id := kk; k_oid := oid; k_stage := KSetconf; k_att := None |} with (new_conn kk oid).
   set (s1 := with_conns s (conns s ++ [new_conn kk oid])) in *.
-  set (c0 := {| n_k := kk; n_oid := oid; n_started := false; n_local := false; n_socks := None; n_att := None; n_done := false |}).
-  change c0 with (new_cn kk oid) in *.
+  change {| n_k := kk; n_oid := oid; n_started := false; n_local := false; n_socks := None; n_att := None; n_done := false;
+            n_refused := rf; n_r4 := false |} with (new_cn kk oid rf).
   pose proof (R_ca _ _ H) as Hca. rewrite Lref, orb_false_r in Hca.
   pose proof (R_slot _ _ H) as Hslot. pose proof (R_via _ _ H) as Hvia.
   cbn [ca_made s1 with_conns]. unfold conn_outcome.
@@ -1374,12 +1461,15 @@ Proof.
       assert (TT : tt = {| incs := incs (t k); alive := alive (t k); sids := sids (t k); inst := inst (t k); pas := pas (t k);
                            subs := subs (t k); kids := kids (t k) ++ [(kk, oid)]; addrs := addrs (t k); refused := true; via := via (t k) |}).
       { subst tt. cbn [tor_step]. unfold conn_outcome. rewrite Hi. destruct v; try reflexivity. contradiction. }
-      assert (H2 : R (with_ca s1) {| t := tt; regs := regs k; cns := cns k ++ [new_cn kk oid]; expect := expect k |}).
+      assert (H2 : R (with_ca s1) {| t := tt; regs := regs k; cns := cns k ++ [new_cn kk oid rf]; expect := expect k |}).
       { rewrite TT. constructor; same_fields H1; cbn [t via refused inst ca_made with_ca].
         all: try (now rewrite orb_true_r).
         all: try (rewrite Hnv, Hi; split; [discriminate | intros X; injection X as X; contradiction]). }
       assert (Hnw : not_waiting (with_ca s1) kk) by (eapply not_waiting_of_stage; [exact H2 | exact F1 | discriminate]).
-      destruct (conn_fail_R (with_ca s1) _ kk (new_conn kk oid) 1 H2 F1 ltac:(discriminate) Hkc Hnw) as (cs' & CE & HR).
+      assert (Hrf : rf = true) by (subst rf; unfold conn_outcome; rewrite Hi; destruct v; try reflexivity; contradiction).
+      assert (Hj : forall n, find_cn kk (cns k ++ [new_cn kk oid rf]) = Some n -> fail_ok tt n 1 = true).
+      { intros n Fn'. rewrite Fcn in Fn'. injection Fn' as <-. unfold fail_ok. cbn. now rewrite Hrf. }
+      destruct (conn_fail_R (with_ca s1) _ kk (new_conn kk oid) 1 H2 F1 ltac:(discriminate) Hkc Hnw Hj) as (cs' & CE & HR).
       cbn [t regs cns expect] in *.
       replace (match v with VCirc => ConnReady | _ => ConnRefused end) with ConnRefused by (destruct v; try reflexivity; contradiction).
       eexists. split; [|exact HR].
@@ -1390,7 +1480,7 @@ Proof.
                            subs := subs (t k); kids := kids (t k) ++ [(kk, oid)]; addrs := addrs (t k); refused := refused (t k); via := true |}).
       { subst tt. cbn [tor_step]. unfold conn_outcome. rewrite Hi. reflexivity. }
       set (s2 := with_slot (with_ca s1) (Some SCirc)).
-      assert (H2 : R s2 {| t := tt; regs := regs k; cns := cns k ++ [new_cn kk oid]; expect := expect k |}).
+      assert (H2 : R s2 {| t := tt; regs := regs k; cns := cns k ++ [new_cn kk oid rf]; expect := expect k |}).
       { rewrite TT. constructor; same_fields H1; cbn [t via refused inst ca_made slot with_ca with_slot s2 option_map slot_of].
         all: try reflexivity.
         all: try tauto. }
